@@ -158,6 +158,32 @@ def deadline_scenarios():
     return out
 
 
+def wrongtype_dest_scenarios():
+    """Two-key commands whose destination has the wrong type and carries a live TTL (or none, or a lapsed one): the command
+    must fail and leave the source, the destination and every TTL as they were."""
+    out = []
+    setk = dict(ex=-1, px=-1, nx=False, xx=False, get=False, keepttl=False)
+    flags = dict(gt=False, lt=False, nx=False, xx=False)
+    dests = {
+        "string": [_c("SET", k="dst", v=_b("v"), **setk)],
+        "set": [_c("SADD", k="dst", vs=[_b("m")])],
+        "hash": [_c("HSET", k="dst", fs=[_b("f")], vs=[_b("1")])],
+        "zset": [_c("ZADD", k="dst", ms=[_b("m")], qs=[4], ch=False, gt=False, lt=False, nx=False, xx=False)],
+    }
+    for dname, dst in dests.items():
+        for ttl in (None, 100000, 50):
+            for n_src in (1, 2):
+                for fl in (True, False):
+                    for tl in (True, False):
+                        steps = [_c("PUSH", k="src", left=False, vs=[_b("a"), _b("b")][:n_src])] + dst
+                        if ttl is not None:
+                            steps.append(_c("EXPIRE", k="dst", ms=ttl, **flags))
+                        steps += [{"tick": 10}, _c("LMOVE", k="src", k2="dst", fromleft=fl, toleft=tl), _c("TYPE", k="src"), _c("TTL", k="dst"),
+                                  _c("EXISTS", ks=["src", "dst"])]
+                        out.append(steps)
+    return out
+
+
 def zset_tie_scenarios(seed, n=40):
     """Sorted sets in which several members share a score, queried with every inclusive / exclusive bound at,
     between and beyond the shared scores (ZCOUNT, ZRANGEBYSCORE with and without LIMIT, ZRANGE, ZRANK)."""
